@@ -9,19 +9,20 @@ program = {
 }
 interaction spec:
   {'k': 'rr'|'fnf'|'mp'|'st'|'ch', 'side': 'c'|'s', 'req': [dlen, mlen],
-   'resp': {'mode': 'now'|'manual'|'fail'|'raise'|'late', 'delay': ticks, 'p': [d, m]}          (rr)
+   'resp': {'mode': 'now'|'manual'|'fail'|'raise'|'late'|'cancelled'|'cancel_late'|'fail_late', 'delay': ticks, 'p': [d, m]}  (rr)
    'src':  {'kind': 'manual'|'gen'|'agen', 'els': [[d, m], ...], 'end': 'flag'|'sep'|'error'|'none',
             'err_at': k|None, 'awaits': k} | None                                                (st, ch responder)
    'sub':  {'n0': n, 'refill': k}                                                               (st, ch requester)
    'rsrc': like src | None   (channel: requester's publisher)
    'rsub': like sub | None   (channel: responder's subscriber) }
 """
+import os
 import asyncio
 from datetime import timedelta
 
 from harness import app as A
 from harness import simnet
-from harness.common import HarnessError
+from harness.common import HarnessError, CaseTimeout
 from harness.vloop import run_case, patch_datetime
 
 MAXN = 0x7FFFFFFF
@@ -167,8 +168,20 @@ def make_handler_class(scn, side):
         async def on_setup(self, data_encoding, metadata_encoding, payload):
             d, m = A.pl(payload)
             self._ev('on_setup', data_encoding=data_encoding, metadata_encoding=metadata_encoding, data=d, metadata=m)
-            if scn.cfg.get('setup_raises'):
-                raise A.AppError('setup refused')
+            kind = scn.cfg.get('setup_raises')
+            if kind:
+                # how an application refuses a connection: any exception type, including the library's own
+                if kind in (True, 'app'):
+                    raise A.AppError('setup refused')
+                from rsocket.exceptions import RSocketProtocolError, RSocketStreamIdInUse
+                from rsocket.error_codes import ErrorCode
+                if kind == 'value_error':
+                    raise ValueError('setup refused')
+                if kind == 'stream_in_use':
+                    raise RSocketStreamIdInUse(7)
+                code = {'protocol_rejected': ErrorCode.REJECTED, 'protocol_app': ErrorCode.APPLICATION_ERROR,
+                        'protocol_invalid': ErrorCode.INVALID, 'protocol_setup': ErrorCode.REJECTED_SETUP}[kind]
+                raise RSocketProtocolError(code, data='setup refused')
 
         async def on_close(self, rsocket, exception=None):
             self._ev('on_close', exc=repr(exception) if exception else None)
@@ -226,6 +239,21 @@ def make_handler_class(scn, side):
                 fut.set_exception(A.AppError('response %d failed' % uid))
             elif mode == 'late':
                 world.loop.call_later(resp.get('delay', 1) * 0.001, scn.resolve, uid)
+            elif mode == 'cancelled':
+                # the application gave up on its own work before handing the future over
+                world.ev(side, 'hfut_app_cancel', uid=uid)
+                fut.cancel()
+            elif mode == 'cancel_late':
+                def _cancel():
+                    world.ev(side, 'hfut_app_cancel', uid=uid)
+                    fut.cancel()
+                world.loop.call_later(resp.get('delay', 1) * 0.001, _cancel)
+            elif mode == 'fail_late':
+                def _fail():
+                    if not fut.done():
+                        world.ev(side, 'hfut_fail', uid=uid)
+                        fut.set_exception(A.AppError('response %d failed late' % uid))
+                world.loop.call_later(resp.get('delay', 1) * 0.001, _fail)
             return fut
 
         async def request_stream(self, payload):
@@ -875,5 +903,22 @@ async def _execute(loop, program, observe=None):
     return tr
 
 
-def run_program(program, observe=None):
-    return run_case(_execute, program, observe)
+def _case_alarm(signum, frame):
+    raise CaseTimeout()
+
+
+def run_program(program, observe=None, timeout=None):
+    import signal
+    timeout = timeout or int(os.environ.get('VERIF_CASE_TIMEOUT', '120'))
+    try:
+        old = signal.signal(signal.SIGALRM, _case_alarm)
+    except ValueError:  # not in the main thread
+        return run_case(_execute, program, observe)
+    signal.alarm(timeout)
+    try:
+        return run_case(_execute, program, observe)
+    except CaseTimeout:
+        raise
+    finally:
+        signal.alarm(0)
+        signal.signal(signal.SIGALRM, old)
